@@ -167,6 +167,7 @@ func garbled(prim string) []WireVal {
 type constraint struct {
 	required, omitempty bool
 	min, max            *float64 // min/max/gte/lte
+	oneof               []string // oneof=a b c (space separated)
 }
 
 func parseValidate(v string) (c constraint, known bool) {
@@ -196,6 +197,11 @@ func parseValidate(v string) (c constraint, known bool) {
 				return c, false
 			}
 			c.max = &f
+		case "oneof":
+			c.oneof = strings.Fields(arg)
+			if len(c.oneof) == 0 {
+				return c, false
+			}
 		default:
 			return c, false
 		}
@@ -236,6 +242,21 @@ func satisfies(validate, prim, canon string, viaPointer bool) (ok, known bool) {
 	if c.required && !viaPointer && isZero {
 		return false, true
 	}
+	if len(c.oneof) > 0 {
+		member := false
+		for _, o := range c.oneof {
+			if prim == "string" {
+				if s, _ := strconv.Unquote(canon); s == o {
+					member = true
+				}
+			} else if f, err := strconv.ParseFloat(o, 64); err == nil && f == size {
+				member = true
+			}
+		}
+		if !member {
+			return false, true
+		}
+	}
 	if c.min != nil && size < *c.min {
 		return false, true
 	}
@@ -254,7 +275,9 @@ func violating(validate, prim string) (WireVal, bool) {
 	var raw string
 	switch {
 	case prim == "string":
-		if c.max != nil {
+		if len(c.oneof) > 0 {
+			raw = strings.Join(c.oneof, "") // what the options read as with the spaces lost
+		} else if c.max != nil {
 			raw = strings.Repeat("z", int(*c.max)+1)
 		} else if c.min != nil && *c.min >= 2 {
 			raw = "y"
@@ -272,7 +295,14 @@ func violating(validate, prim string) (WireVal, bool) {
 		}
 		lof, _ := strconv.ParseFloat(lo, 64)
 		hif, _ := strconv.ParseFloat(hi, 64)
-		if c.max != nil && *c.max+1 <= hif {
+		if len(c.oneof) > 0 {
+			raw = "4"
+			for _, o := range c.oneof {
+				if o == raw {
+					raw = "6"
+				}
+			}
+		} else if c.max != nil && *c.max+1 <= hif {
 			raw = strconv.FormatFloat(*c.max+1, 'f', -1, 64)
 		} else if c.min != nil && *c.min-1 >= lof {
 			raw = strconv.FormatFloat(*c.min-1, 'f', -1, 64)
@@ -324,6 +354,13 @@ func (g *bodyGen) enumValues(t projgen.TypeRef) []string {
 // primJSON returns a JSON literal of a value of the primitive that satisfies validate.
 func (g *bodyGen) primJSON(prim, validate string) string {
 	c, _ := parseValidate(validate)
+	if len(c.oneof) > 0 {
+		o := projgen.Pick(g.r, c.oneof)
+		if prim == "string" {
+			return strconv.Quote(o)
+		}
+		return o
+	}
 	switch {
 	case prim == "string":
 		n := 3
@@ -384,6 +421,19 @@ func (g *bodyGen) primJSON(prim, validate string) string {
 
 // valueJSON renders a well-formed JSON value for a type (all fields present).
 func (g *bodyGen) valueJSON(t projgen.TypeRef, validate string, depth int) string {
+	if t.Map {
+		et := t
+		et.Map = false
+		n := g.r.Range(0, 2)
+		if depth >= 3 {
+			n = 0
+		}
+		parts := make([]string, n)
+		for i := range parts {
+			parts[i] = strconv.Quote([]string{"k-one", "k two"}[i]) + ":" + g.valueJSON(et, "", depth+1)
+		}
+		return "{" + strings.Join(parts, ",") + "}"
+	}
 	if t.Slice {
 		et := t
 		et.Slice, et.Ptr = false, false
@@ -478,6 +528,9 @@ func typeString(t projgen.TypeRef) string {
 	if t.Slice {
 		s += "[]"
 	}
+	if t.Map {
+		s += "map[string]"
+	}
 	if t.Kind == "prim" {
 		return s + t.Prim
 	}
@@ -495,6 +548,9 @@ func violatingField(validate, prim string) (string, bool) {
 	}
 	switch {
 	case prim == "string":
+		if len(c.oneof) > 0 {
+			return strconv.Quote(strings.Join(c.oneof, "")), true
+		}
 		if c.required || (c.min != nil && *c.min >= 1) {
 			return `""`, true
 		}
